@@ -5,7 +5,7 @@ import srvflow
 INV = ["T_C05_PausedNoDispatch", "T_C05_UdsReachable", "T_C05_ListenerLive", "T_C05_BackoffExpires"]
 DESIGN = ["MC_cmd_quick.cfg", "MC_cmd_c3.cfg"]
 EDGES = ["MC_cmd_quick.cfg"]
-THOROUGH = ["MC_cmd_2l.cfg", "MC_cmd_w2.cfg", "MC_cmd_fault.cfg"]
+THOROUGH = ["MC_cmd_2l.cfg", "MC_cmd_w2.cfg", "MC_cmd_w2b.cfg", "MC_cmd_fault.cfg", "MC_cmd_w2l2e2.cfg"]
 NEGS = {"NEG_UnlinkOnDeregister.cfg": ["C05_UdsReachable"], "NEG_BackoffNeverReregisters.cfg": ["C03_NoLostWake"],
         "NEG_ConnErrIsFatal.cfg": ["C05_ConnErrNoDelay"], "NEG_PauseKeepsRegistered.cfg": ["Steps"],
         "NEG_ResumeClearsBackoff.cfg": ["Steps"]}
